@@ -6,7 +6,10 @@
    CyclePrimCompose2.sl_cycle_prim, on the state with both frames declared; the native node means C06's gsem_c06).
    Everything else is the body of Slalom.solve_slalom_model with the definitions of Slalom.v: gate_ord / passed are
    declared from the id the Solver has reached (next_id), now 2 * frame_n + height * width instead of
-   2 * frame_n + 3 * height * width.  Same input domain and error behaviour.
+   2 * frame_n + 3 * height * width.  Same input domain.  Error behaviour: as on the plain route, except for boards
+   with height <= 0 AND width <= 0 (one of them 0; both <= -1 stays outside the scope): on the plain route the rank
+   array int_array(.., 0, -1) of the helper raises ValueError, on this route nothing raises before passed[origin] /
+   gate_id[y2][x2] on the empty grid raises IndexError.
 
    slalom_exact_prim: the statement of SlalomProofs.slalom_exact for this program (same hypothesis slalom_wf, same
    answer keys - the first frame), from CyclePrimCompose2.sl_compose_prim and the soundness / completeness theorems
@@ -25,7 +28,8 @@ Definition solve_slalom_model_prim (pb : problem) : res state :=
   let oy := zn (getz (sec pb 1) 0) in let ox := zn (getz (sec pb 1) 1) in
   let black := sec pb 2 in let gs := sec pb 3 in
   let G := n_gates gs in
-  if ((getz (sec pb 0) 0 <? 1) || (getz (sec pb 0) 1 <? 1))%Z then Err ValueError
+  if ((getz (sec pb 0) 0 <=? 0) && (getz (sec pb 0) 1 <=? 0))%Z then Err IndexError
+  else if ((getz (sec pb 0) 0 <? 1) || (getz (sec pb 0) 1 <? 1))%Z then Err ValueError
   else if sl_outside pb then Err ValueError
   else
   match sl_cycle_prim (h - 1) (w - 1) with
@@ -108,8 +112,14 @@ Proof.
   change (getz [Z.of_nat h; Z.of_nat w] 1) with (Z.of_nat w).
   change (getz [oy; ox] 0) with oy. change (getz [oy; ox] 1) with ox.
   destruct (sl_dims h w [[oy; ox]; black; gs]) as [-> ->].
-  destruct h as [|fh]; [intros H; discriminate H|].
-  destruct w as [|fw]; [rewrite orb_true_r; intros H; discriminate H|].
+  destruct h as [|fh].
+  { destruct w as [|fw]; intros H; [discriminate H|].
+    replace (Z.of_nat (S fw) <=? 0)%Z with false in H by (symmetry; apply Z.leb_gt; lia). discriminate H. }
+  destruct w as [|fw].
+  { intros H. replace (Z.of_nat (S fh) <=? 0)%Z with false in H by (symmetry; apply Z.leb_gt; lia).
+    cbn [andb] in H. rewrite orb_true_r in H. discriminate H. }
+  replace ((Z.of_nat (S fh) <=? 0) && (Z.of_nat (S fw) <=? 0))%Z with false
+    by (symmetry; apply andb_false_iff; left; apply Z.leb_gt; lia).
   replace ((Z.of_nat (S fh) <? 1) || (Z.of_nat (S fw) <? 1))%Z with false
     by (symmetry; apply orb_false_iff; split; apply Z.ltb_ge; lia).
   destruct (sl_outside _); [discriminate|].
